@@ -107,6 +107,7 @@ var (
 	astCacheTTLOnce         sync.Once         // ensures TTL is set only once
 	astCacheCleanupInterval = astCacheTTL / 2 // how often to run cleanup
 	astCacheCleanupOnce     sync.Once         // ensures cleanup interval set only once
+	astCacheCleanupExplicit bool              // true once the interval has been set explicitly
 
 	// Cache lifecycle management
 	cacheCleanupMutex sync.Mutex         // protects cleanup goroutine lifecycle
@@ -129,9 +130,9 @@ func SetASTCacheTTLOnce(d time.Duration) {
 	astCacheTTLOnce.Do(func() {
 		cacheConfigMutex.Lock()
 		astCacheTTL = d
-		astCacheCleanupOnce.Do(func() {
+		if !astCacheCleanupExplicit {
 			astCacheCleanupInterval = d / 2
-		})
+		}
 		cacheConfigMutex.Unlock()
 	})
 }
@@ -143,6 +144,7 @@ func SetASTCacheCleanupIntervalOnce(d time.Duration) {
 	astCacheCleanupOnce.Do(func() {
 		cacheConfigMutex.Lock()
 		astCacheCleanupInterval = d
+		astCacheCleanupExplicit = true
 		cacheConfigMutex.Unlock()
 	})
 }
